@@ -1,10 +1,14 @@
 package grpctarget
 
 import (
+	"context"
 	"io"
 	"net"
 	"net/http"
 	"strconv"
+	"sync"
+	"sync/atomic"
+	"time"
 )
 
 // HTTPTarget: minimal recording HTTP/1.1 target for the isolation runs.  Logs the three places
@@ -14,19 +18,78 @@ type HTTPTarget struct {
 	// postprocessors fail at run time: token%5 == 0 -> 500 + a body that is not JSON;
 	// token%5 == 1 -> 2xx JSON without the asserted key.  Other requests: 200..203 by token.
 	FailShare bool
-	rec       *Rec
-	srv  *http.Server
-	Addr string
+	// Barrier > 0: requests for /r3 (the step with the var/xpath postprocessor) are held until that many are waiting --
+	// or 15 ms have passed since the first one -- and answered together, so that the instances run the step's
+	// postprocessors at the same time.
+	Barrier int
+	bmu     sync.Mutex
+	waiting []chan struct{}
+	rec     *Rec
+	srv     *http.Server
+	Addr    string
 }
 
-func StartHTTP(rec *Rec) *HTTPTarget {
-	t := &HTTPTarget{rec: rec}
+func (t *HTTPTarget) barrier() {
+	if t.Barrier <= 1 {
+		return
+	}
+	ch := make(chan struct{})
+	t.bmu.Lock()
+	t.waiting = append(t.waiting, ch)
+	release := func() {
+		for _, c := range t.waiting {
+			close(c)
+		}
+		t.waiting = nil
+	}
+	if len(t.waiting) >= t.Barrier {
+		release()
+	} else if len(t.waiting) == 1 {
+		go func() {
+			time.Sleep(15 * time.Millisecond)
+			t.bmu.Lock()
+			if len(t.waiting) > 0 && t.waiting[0] == ch {
+				release()
+			}
+			t.bmu.Unlock()
+		}()
+	}
+	t.bmu.Unlock()
+	<-ch
+}
+
+func StartHTTP(rec *Rec) *HTTPTarget { return StartHTTPAt(rec, "127.0.0.1:0") }
+
+// ReserveAddr returns a loopback address nothing listens on (any more).
+func ReserveAddr() string {
 	l, err := net.Listen("tcp", "127.0.0.1:0")
 	if err != nil {
 		panic(err)
 	}
+	a := l.Addr().String()
+	_ = l.Close()
+	return a
+}
+
+func StartHTTPAt(rec *Rec, addr string) *HTTPTarget {
+	t := &HTTPTarget{rec: rec}
+	var l net.Listener
+	var err error
+	for i := 0; i < 50; i++ {
+		if l, err = net.Listen("tcp", addr); err == nil {
+			break
+		}
+		time.Sleep(10 * time.Millisecond)
+	}
+	if err != nil {
+		panic(err)
+	}
 	t.Addr = l.Addr().String()
-	t.srv = &http.Server{Handler: http.HandlerFunc(t.handle)}
+	// connection identity (the server's view): which calls share a connection
+	t.srv = &http.Server{Handler: http.HandlerFunc(t.handle),
+		ConnContext: func(ctx context.Context, _ net.Conn) context.Context {
+			return context.WithValue(ctx, connKey{}, int(atomic.AddInt64(&connSeq, 1)))
+		}}
 	go func() { _ = t.srv.Serve(l) }()
 	return t
 }
@@ -39,7 +102,11 @@ func (t *HTTPTarget) handle(w http.ResponseWriter, r *http.Request) {
 	if t.FailShare {
 		if n, err := strconv.Atoi(r.URL.Query().Get("tok")); err == nil {
 			status = 200 + n%4
-			switch n % 5 {
+			share := -1 // r3 / r4 (and everything else) are always answered well
+			if r.URL.Path == "/r1" || r.URL.Path == "/r2" {
+				share = n % 5
+			}
+			switch share {
 			case 0:
 				status, fail = 500, "not-json"
 			case 1:
@@ -47,17 +114,37 @@ func (t *HTTPTarget) handle(w http.ResponseWriter, r *http.Request) {
 			}
 		}
 	}
+	// which step of the scenario this is: r1 / r3 are steps whose token a postprocessor captures (cap), r2 / r4 carry
+	// the captured value back (prev: "<none>" when the header is missing)
+	capStep, from, prev := "", "", ""
+	switch r.URL.Path {
+	case "/r1", "/r3":
+		capStep = r.URL.Path[1:]
+	case "/r2":
+		from, prev = "r1", r.Header.Get("X-Prev")
+	case "/r4":
+		from, prev = "r3", r.Header.Get("X-Xp")
+	}
+	if from != "" && prev == "" {
+		prev = "<none>"
+	}
+	tok := r.URL.Query().Get("tok")
 	defer func() {
 		w.Header().Set("X-Echo", r.Header.Get("X-Tok"))
-		switch fail {
-		case "not-json":
+		switch {
+		case fail == "not-json":
 			w.Header().Set("Content-Type", "text/plain")
 			w.WriteHeader(status)
 			_, _ = w.Write([]byte("oops <html> not json"))
-		case "no-key":
+		case fail == "no-key":
 			w.Header().Set("Content-Type", "application/json")
 			w.WriteHeader(status)
 			_, _ = w.Write([]byte(`{"other":1}`))
+		case r.URL.Path == "/r3":
+			// a document for the var/xpath postprocessor: the request's own token and a list
+			w.Header().Set("Content-Type", "text/html")
+			w.WriteHeader(status)
+			_, _ = w.Write([]byte(`<html><head><title>t</title></head><body><div id="tok">` + tok + `</div><ul><li>a` + tok + `</li><li>b</li><li>c</li></ul></body></html>`))
 		default:
 			w.Header().Set("Content-Type", "application/json")
 			w.WriteHeader(status)
@@ -67,5 +154,13 @@ func (t *HTTPTarget) handle(w http.ResponseWriter, r *http.Request) {
 	t.rec.Emit(E{"ev": "Recv", "proto": "http", "method": r.Method, "path": r.URL.Path,
 		"q": r.URL.Query().Get("tok"), "h": r.Header.Get("X-Tok"), "h2": r.Header.Get("X-Tok2"), "body": string(body),
 		"toks": []string{r.URL.Query().Get("tok"), r.Header.Get("X-Tok"), r.Header.Get("X-Tok2"), string(body)},
-		"status": status, "fail": fail})
+		"status": status, "fail": fail, "cap": capStep, "from": from, "prev": prev, "conn": connOf(r)})
+	if r.URL.Path == "/r3" {
+		t.barrier()
+	}
+}
+
+func connOf(r *http.Request) int {
+	id, _ := r.Context().Value(connKey{}).(int)
+	return id
 }
